@@ -461,20 +461,26 @@ fn tr_binary(cx: &mut Ctx, b: &ExprBinary, expected: Option<&Ty>) -> R<Tr> {
         let uns = matches!(&ty, Ty::Int(k) if unsigned(k));
         let s = match b.op {
             Add(_) => format!("({} + {})", l.s, r.s),
-            Sub(_) => format!("({} - {})", l.s, r.s),
+            Sub(_) => {
+                if uns {
+                    format!("(usub {} {})", l.s, r.s)
+                } else {
+                    format!("({} - {})", l.s, r.s)
+                }
+            }
             Mul(_) => format!("({} * {})", l.s, r.s),
             Div(_) => {
                 if uns {
-                    format!("({} / {})", l.s, r.s)
+                    format!("(udiv {} {})", l.s, r.s)
                 } else {
-                    format!("(Int.tdiv {} {})", l.s, r.s)
+                    format!("(sdiv {} {})", l.s, r.s)
                 }
             }
             Rem(_) => {
                 if uns {
-                    format!("({} % {})", l.s, r.s)
+                    format!("(umod {} {})", l.s, r.s)
                 } else {
-                    format!("(Int.tmod {} {})", l.s, r.s)
+                    format!("(smod {} {})", l.s, r.s)
                 }
             }
             _ => return Err("integer bit operation".into()),
